@@ -120,10 +120,10 @@ MANIFEST = dict(
          "types, shape of the revocation sweep) and tied by a differential run of real ClientSessions in a real Hub "
          "against a gate-controlled fake Mcu (all orders of <= 4 concurrent threads x media-server outcomes, PRNG "
          "histories); the spec's entitlement predicate is evaluated on the fake media server's open set.",
-    note="Defects found and repaired: (fix: d3cd7c0) objects whose creation completed after leave room / leave call / "
+    note="Defects found and repaired: (fix: b9c3e65) objects whose creation completed after leave room / leave call / "
          "close / permission loss were stored and stayed open, GetOrCreatePublisher changed the publishers map without "
          "the lock (data race seen by the race detector on the old tree) - the unrepaired model's violation is a proved "
-         "witness; (fix: 2d93165) mcu_janus.go left the Janus room behind when a publisher's join timed out. The "
+         "witness; (fix: a5b689b) mcu_janus.go left the Janus room behind when a publisher's join timed out. The "
          "screen-publisher permission clause depends on C08's early return in the revocation goroutine (conditional "
          "theorem + proved witness + known finding while it reproduces). Trusted: Lean kernel, extractor, harness, "
          "testing/synctest, the fake Mcu; Janus/proxy wire protocol not modelled beyond Close() (two observations "
